@@ -81,6 +81,8 @@ struct Mod {
     imports: Track<walrus::ImportId>,
     locals: Track<walrus::LocalId>,
     customs: Track<walrus::UntypedCustomSectionId>,
+    /// parallel to customs.ids: is the section a RawCustomSection?
+    custom_raw: Vec<bool>,
     counter: u32,
 }
 
@@ -131,6 +133,7 @@ impl Mod {
             imports: Track::default(),
             locals: Track::default(),
             customs: Track::default(),
+            custom_raw: Vec::new(),
             counter: 0,
         }
     }
@@ -509,9 +512,16 @@ fn add_op(md: &mut Mod, coll: CollKind, arg: u32, counters: &mut Vec<(String, u6
             }
         }
         CollKind::Customs => {
-            let name = format!("cu{}", k);
-            let id = md.m.customs.add(RawCustomSection { name: name.clone(), data: vec![k as u8] });
-            if let Err(e) = md.customs.add(id.into(), name) {
+            // raw and user-typed sections, some sharing a name (the documented take-raw / re-add-typed workflow)
+            let name = if arg % 3 == 2 { "cushared".to_string() } else { format!("cu{}", k) };
+            let id: walrus::UntypedCustomSectionId = if arg % 2 == 0 {
+                md.custom_raw.push(true);
+                md.m.customs.add(RawCustomSection { name: name.clone(), data: vec![k as u8] }).into()
+            } else {
+                md.custom_raw.push(false);
+                md.m.customs.add(super::TypedSec { name: name.clone(), payload: vec![k as u8, 1] }).into()
+            };
+            if let Err(e) = md.customs.add(id, name) {
                 return fail("id_never_reused", format!("customs: {}", e));
             }
         }
@@ -702,11 +712,15 @@ fn find_op(md: &mut Mod, coll: CollKind, arg: u32, counters: &mut Vec<(String, u
             }
             let k = arg as usize % md.customs.fp.len();
             let name = md.customs.fp[k].clone();
+            // remove_raw takes the FIRST live RAW section of that name and touches nothing else
+            let first = (0..md.customs.fp.len()).find(|j| md.customs.alive[*j] && md.custom_raw[*j] && md.customs.fp[*j] == name);
             let got = md.m.customs.remove_raw(&name);
-            if md.customs.alive[k] != got.is_some() {
-                return fail("finder_agrees_with_model", format!("customs.remove_raw({:?}) found={} but the model says alive={}", name, got.is_some(), md.customs.alive[k]));
+            if first.is_some() != got.is_some() {
+                return fail("finder_agrees_with_model", format!("customs.remove_raw({:?}) found={} but the model has a live raw section of that name: {}", name, got.is_some(), first.is_some()));
             }
-            md.customs.alive[k] = false;
+            if let Some(j) = first {
+                md.customs.alive[j] = false;
+            }
         }
         _ => {}
     }
